@@ -78,7 +78,8 @@ template <typename CharT>
         // The sign is that of the difference of the characters interpreted as unsigned char.
         return static_cast<int>(static_cast<unsigned char>(*lhs)) - static_cast<int>(static_cast<unsigned char>(*rhs));
     } else {
-        return static_cast<int>(*lhs) - static_cast<int>(*rhs);
+        // the difference of two wide characters does not always fit in an int
+        return *lhs < *rhs ? -1 : (*lhs > *rhs ? 1 : 0);
     }
 }
 
@@ -96,7 +97,8 @@ template <typename CharT, typename SizeT>
             if constexpr (sizeof(CharT) == 1) {
                 return static_cast<int>(static_cast<unsigned char>(u1)) - static_cast<int>(static_cast<unsigned char>(u2));
             } else {
-                return static_cast<int>(u1 - u2);
+                // the difference of two wide characters does not always fit in an int
+                return u1 < u2 ? -1 : 1;
             }
         }
         if (u1 == CharT(0)) {
